@@ -24,6 +24,8 @@ grep -q "ragc-cli/tests" "$SRC/demo/RUN.md" 2>/dev/null && CRATE=ragc-cli
 mkdir -p $CRATE/tests
 TESTS=""
 for d in $DEMOS; do cp "$d" $CRATE/tests/; TESTS="$TESTS --test $(basename "$d" .rs)"; done
+# helper sub-directories of the demo (e.g. an independent reader module)
+for sd in "$SRC"/demo/*/; do [ -d "$sd" ] && cp -r "$sd" $CRATE/tests/; done
 echo "== demo on clean tree ($CRATE$TESTS)"
 cargo test --offline -p $CRATE $TESTS > /var/tmp/rvx-confirm/$SID.clean.log 2>&1; CLEAN=$?
 tail -3 /var/tmp/rvx-confirm/$SID.clean.log
@@ -33,6 +35,7 @@ cargo test --offline -p $CRATE $TESTS > /var/tmp/rvx-confirm/$SID.mut.log 2>&1; 
 grep -E "^test result|panicked|FAILED|failed" /var/tmp/rvx-confirm/$SID.mut.log | head -8
 echo "== suite with patch (demo removed)"
 for d in $DEMOS; do rm -f $CRATE/tests/$(basename "$d"); done
+for sd in "$SRC"/demo/*/; do [ -d "$sd" ] && rm -rf $CRATE/tests/$(basename "$sd"); done
 unshare -m sh -c "mount -t tmpfs tmpfs /tmp && cd $WT && cargo nextest run --workspace --no-fail-fast --offline" > /var/tmp/rvx-confirm/$SID.suite.log 2>&1
 SUITE=$(grep -E "Summary" /var/tmp/rvx-confirm/$SID.suite.log | tail -1)
 # the suite's sleep-based test_backpressure is flaky under load on the unmodified tree too: retry once
